@@ -143,7 +143,7 @@ theorem boundsheet_unknown_state_rejected (off dt : Nat) (us : List Nat) (wide :
     ∃ e, parseSheetMetadata (encodeBoundSheet off 3 dt us wide) true = .err e := by
   refine ⟨unrec "BoundSheet8:hsState" "3", ?_⟩
   unfold parseSheetMetadata encodeBoundSheet
-  have hlen5 : ¬ ((le32 off ++ [byte 3, byte dt] ++ shortString us wide).length < 5) := by simp [le32]
+  have hlen5 : ¬ ((le32 off ++ [byte 3, byte dt] ++ shortString us wide).length < 6) := by simp [le32]
   have hb4 : byteAt (le32 off ++ [byte 3, byte dt] ++ shortString us wide) 4 = 3 := by
     simp [byteAt, le32, byte_toNat]
   simp only [hlen5, if_false, hb4]
@@ -358,7 +358,8 @@ def d22Rels : List (String × String) := [("rId1", "worksheets/sheet1.xml")]
 /-- **xlsx: sheets, defined names and the date flag in document order.** For every element prefix (`q` with
     `local_name (q s) = s`), every spelling of the relationship-id attribute with a prefix and local name `id`,
     every list of declared sheets whose relationship resolves to a part in a known folder, every list of
-    defined names (text possibly split over several Text events) and every `workbookPr` attribute list:
+    defined names (character data in any number of pieces, each ordinary text or a CDATA section — both count
+    alike after fix 5d9aab9) and every `workbookPr` attribute list:
     the reader reports exactly the declared sheets in order (name, kind from the folder, visibility from
     `state`, default visible), the defined names in order with their concatenated text, and
     `date1904 ∈ {"1","true"}` — and an `<extLst>` at the end of the workbook element changes nothing of this,
@@ -366,7 +367,7 @@ def d22Rels : List (String × String) := [("rId1", "worksheets/sheet1.xml")]
     the list's own qualified name is excluded): after fix 4dbff9e its subtree is skipped. -/
 theorem sheets_in_order_xlsx (rels : List (String × String)) (q : String → String) (hq : QOk q)
     (ridKey : String) (hk : ridKeyOk ridKey) (pr : Option (List (String × String)))
-    (sheets : List XSheet) (hs : ∀ s ∈ sheets, s.ok rels) (names : List (String × List String))
+    (sheets : List XSheet) (hs : ∀ s ∈ sheets, s.ok rels) (names : List (String × List (Bool × String)))
     (ext : Option (List Ev)) (hext : ∀ body, ext = some body → ExtOk (q "extLst") body) :
     readWorkbookXlsx rels (workbookEvents q ridKey pr sheets names ext) =
       .ok (⟨sheets.map (fun s => ⟨s.name, s.kind, s.vis⟩), names.map dnValue, (pr.map date1904Attr).getD false⟩,
@@ -409,32 +410,45 @@ theorem sheets_in_order_xlsx (rels : List (String × String)) (q : String → St
   rw [h0, hpr, e1 "sheets" (by decide) (by decide) (by decide) (by decide) _ _ _ rfl rfl,
     loop_sheets _ _ q hq ridKey hk sheets hs, e4 "sheets" (by decide) _ _ rfl rfl,
     e1 "definedNames" (by decide) (by decide) (by decide) (by decide) _ _ _ rfl rfl,
-    loop_names _ _ q hq (by rw [pm_q q hq]; decide), e4 "definedNames" (by decide) _ _ rfl rfl, hx,
+    loop_names _ _ q hq (by rw [pm_q q hq]; decide) rfl, e4 "definedNames" (by decide) _ _ rfl rfl, hx,
     loop_end_workbook _ _ _ _ _ rfl rfl (hq "workbook")]
   simp [xlsxFinish, xsheetDecoded, List.map_map, Function.comp_def]
 
 /-- the hypotheses of `sheets_in_order_xlsx` are satisfiable: prefix `x:`, `rel:id`, a hidden chart sheet and a
-    very hidden macro sheet (kind known after fix D27), a defined name with XML specials split in two events -/
+    very hidden macro sheet (kind known after fix D27), a defined name with XML specials split over a text event and a CDATA section -/
 example :
     readWorkbookXlsx [("rId1", "chartsheets/sheet1.xml"), ("rId2", "/xl/macrosheets/sheet2.xml")]
       (workbookEvents (fun s => "x:" ++ s) "rel:id" (some [("date1904", "true")])
         [⟨"A & <B>", "1", .hidden, true, "rId1", "chartsheets/sheet1.xml", .chartSheet⟩,
          ⟨"😀", "2", .veryHidden, true, "rId2", "/xl/macrosheets/sheet2.xml", .macroSheet⟩]
-        [("n", ["1<2", "&\"x\""])]) =
+        [("n", [(false, "1<2"), (true, "&\"x\"")])]) =
       .ok (⟨[⟨"A & <B>", .chartSheet, .hidden⟩, ⟨"😀", .macroSheet, .veryHidden⟩], [("n", "1<2&\"x\"")], true⟩,
            ["xl/chartsheets/sheet1.xml".toList, "xl/macrosheets/sheet2.xml".toList]) := by
   decide
 
+/-- **xlsx: defined names in document order; text and CDATA contribute alike.** The value reported for a name is
+    the concatenation of all its character-data pieces in order, whether a piece is ordinary text or a CDATA
+    section (`dnValue` ignores the flag) -/
 theorem defined_names_in_order_xlsx (rels : List (String × String)) (q : String → String) (hq : QOk q)
     (ridKey : String) (hk : ridKeyOk ridKey) (pr : Option (List (String × String)))
-    (sheets : List XSheet) (hs : ∀ s ∈ sheets, s.ok rels) (names : List (String × List String)) :
+    (sheets : List XSheet) (hs : ∀ s ∈ sheets, s.ok rels) (names : List (String × List (Bool × String))) :
     (readWorkbookXlsx rels (workbookEvents q ridKey pr sheets names)).isOk = true ∧
-    ∀ wb p, readWorkbookXlsx rels (workbookEvents q ridKey pr sheets names) = .ok (wb, p) → wb.names = names.map dnValue := by
+    ∀ wb p, readWorkbookXlsx rels (workbookEvents q ridKey pr sheets names) = .ok (wb, p) →
+      wb.names = names.map (fun n => (n.1, n.2.foldl (fun acc c => acc ++ c.2) "")) := by
   rw [sheets_in_order_xlsx rels q hq ridKey hk pr sheets hs names none (by intro _ h; cases h)]
   refine ⟨rfl, ?_⟩
   intro wb p h
   cases h
   rfl
+
+/-- finding C16-d as a checked statement: `<definedName name="N">Sheet1!<![CDATA[$A$1]]></definedName>` — the reader
+    before 5d9aab9 dropped the CDATA part, the current one reports the whole text -/
+theorem c16d_witness :
+    readWorkbookXlsxNoCData [] (workbookEvents id "r:id" none [] [("N", [(false, "Sheet1!"), (true, "$A$1")])]) =
+      .ok (⟨[], [("N", "Sheet1!")], false⟩, []) ∧
+    readWorkbookXlsx [] (workbookEvents id "r:id" none [] [("N", [(false, "Sheet1!"), (true, "$A$1")])]) =
+      .ok (⟨[], [("N", "Sheet1!$A$1")], false⟩, []) := by
+  decide
 
 /-- **xlsx: the date-system flag** is `true` exactly for `date1904="1"` / `"true"` on the main-namespace
     `workbookPr`, whatever prefix that element has (fix D22), and inert foreign content does not change it: an
@@ -443,7 +457,7 @@ theorem defined_names_in_order_xlsx (rels : List (String × String)) (q : String
     interprets leaves the flag — and the sheets and names — as declared (fix 4dbff9e; finding C16-b) -/
 theorem date1904_flag_xlsx (rels : List (String × String)) (q : String → String) (hq : QOk q)
     (ridKey : String) (hk : ridKeyOk ridKey) (v : String)
-    (sheets : List XSheet) (hs : ∀ s ∈ sheets, s.ok rels) (names : List (String × List String))
+    (sheets : List XSheet) (hs : ∀ s ∈ sheets, s.ok rels) (names : List (String × List (Bool × String)))
     (ext : Option (List Ev)) (hext : ∀ body, ext = some body → ExtOk (q "extLst") body) :
     ∀ wb p, readWorkbookXlsx rels (workbookEvents q ridKey (some [("date1904", v)]) sheets names ext) = .ok (wb, p) →
       wb.is1904 = (v = "1" || v = "true") := by
@@ -563,7 +577,7 @@ theorem date1904_reaches_cells_xlsb (pf : Bytes → List Text → List (Text × 
 /-- xlsx: every date-styled numeric cell shows `date1904 ∈ {"1", "true"}` of `<workbookPr>`, under any prefix -/
 theorem date1904_reaches_cells_xlsx (rels : List (String × String)) (q : String → String) (hq : QOk q)
     (ridKey : String) (hk : ridKeyOk ridKey) (d : String)
-    (sheets : List XSheet) (hs : ∀ s ∈ sheets, s.ok rels) (names : List (String × List String))
+    (sheets : List XSheet) (hs : ∀ s ∈ sheets, s.ok rels) (names : List (String × List (Bool × String)))
     (ext : Option (List Ev)) (hext : ∀ body, ext = some body → ExtOk (q "extLst") body)
     (wb : Workbook String) (p : List (List Char))
     (h : readWorkbookXlsx rels (workbookEvents q ridKey (some [("date1904", d)]) sheets names ext) = .ok (wb, p))
